@@ -1,4 +1,5 @@
 import SqlObjVerif.Lemmas.Lex
+import SqlObjVerif.Lemmas.Like
 /-!
 # C02 — SQL literals are injection-proof: each value renders as exactly one literal
 
@@ -106,5 +107,41 @@ theorem C02_stmt_skeleton_independent_of_data_where (d : Dialect) (data : List (
 example : tokens .mysql (insertSQL .mysql [116] [[97], [98]] [.str [39, 41, 59], .null])
     = some (insertToks [116] [[97], [98]] [[.str [39, 41, 59]], [.word [78, 85, 76, 76]]]) := by
   rw [C02_stmt_skeleton_independent_of_data_insert _ _ _ _ (by decide) (by decide) (by decide)]; rfl
+
+/-- (v-d) LIKE patterns: the clause `startswith` / `endswith` / `contains` render is
+    `( expr LIKE ( <ONE literal> ) ESCAPE <ONE literal> )`, the pattern literal decodes to
+    prefix ++ (argument with `\ % _` escaped) ++ postfix — quotes at the edges of the argument, doubled
+    quotes, only quotes included — and the escape literal to `\`.  (`likeAdm`: see C17.) -/
+theorem C02_like_pattern_one_literal (d : Dialect) (op : LikeOp) (expr a : Str)
+    (hop : op = startswithOp ∨ op = endswithOp ∨ op = containsOp)
+    (ha : Like.likeAdm d a = true) (hexpr : identLike expr = true) :
+    tokens d (Like.likeClause d op expr a) =
+      some (Like.likeToks expr (op.pre ++ Like.likeQ a ++ op.post) [92]) := by
+  rcases hop with rfl | rfl | rfl <;>
+    exact Like.tokens_likeClause d _ expr a ha hexpr (by decide) (by decide) rfl
+
+example : tokens .sqlite (Like.likeClause .sqlite containsOp [99] [39]) =
+    some (Like.likeToks [99] [37, 39, 37] [92]) :=
+  C02_like_pattern_one_literal _ _ _ _ (Or.inr (Or.inr rfl)) (by decide) (by decide)
+
+/-- an SQLObject instance used as a value renders as `str(self.id)`.  Full-strength statement (it is
+    one literal of its id).  FALSE of the code for string ids (`sqlmeta.idType = str`): the id text is
+    placed in the statement bare — `T.q.id == obj` with `obj.id = "0) OR (1=1"` reads `(0) OR (1=1)`. -/
+theorem C02_instance_value_full_FALSE :
+    ¬ (∀ (d : Dialect) (v : Val) (rest : Str), okAfter rest = true →
+        (match v with | .instStr s => 0 ∉ s | .instInt _ => True | _ => False) →
+        tokens d (render d v ++ rest) = (tokens d rest).map (valToks d v ++ ·)) := by
+  intro h
+  have := h .sqlite (.instStr [120, 41, 32, 79, 82, 32, 40, 49]) [41] (by decide) (by decide)
+  rw [tokens_close] at this
+  simp only [render, valToks, List.cons_append, List.nil_append] at this
+  rw [show (120 :: 41 :: 32 :: 79 :: 82 :: 32 :: 40 :: 49 :: [41] : Str) = [120] ++ (41 :: 32 :: 79 :: 82 :: 32 :: 40 :: 49 :: [41]) from rfl,
+    tokens_word _ _ _ (by decide) (by decide) (by decide), tokens_punct _ 41 _ (by decide)] at this
+  cases h2 : tokens Dialect.sqlite (32 :: 79 :: 82 :: 32 :: 40 :: 49 :: [41]) <;> simp [h2] at this
+
+/-- … and it holds for integer ids (the usual case): sign and digits, nothing else -/
+theorem C02_instance_value_partial (d : Dialect) (i : Int) (rest : Str) (hr : okAfter rest = true) :
+    tokens d (render d (.instInt i) ++ rest) = (tokens d rest).map (intToks i ++ ·) := by
+  simpa [valToks] using C02_lex_render_value d (.instInt i) rest rfl hr
 
 end SqlObjVerif.Lex
